@@ -105,6 +105,10 @@ class ConstructPipeline(RewritePattern):
                     return
                 break
             assert next_op is not None
+        else:
+            # the stages must make up the rest of the loop body: operations in between or
+            # after the stages would not take part in the pipeline
+            return
 
         # a valid pipeline has at least two stages
         if len(stages) < 2:
